@@ -139,6 +139,19 @@ impl Scheduler for Sim {
     }
 }
 
+static ALLOC_YIELD: std::sync::atomic::AtomicBool = std::sync::atomic::AtomicBool::new(false);
+
+/// Tracked (= crate-made) allocations are scheduling points in half of the executions: the
+/// window between e.g. a reference-count decrement and the copy that follows contains no
+/// atomic access, but it does contain an allocator call.
+fn alloc_yield() {
+    if ALLOC_YIELD.load(std::sync::atomic::Ordering::Relaxed) {
+        let saved = alloc::set_track(false);
+        shuttle::thread::yield_now();
+        alloc::set_track(saved);
+    }
+}
+
 fn draw_strategy(rng: &mut Rng) -> Strategy {
     match rng.below(10) {
         0..=3 => Strategy::Random,
@@ -168,10 +181,13 @@ fn acfg_from(p: &J) -> AllocCfg {
     }
 }
 
-fn execute(program: &J, strategy: Strategy, sched_seed: u64, hb: bool) -> ExecResult {
+fn execute(program: &J, strategy: Strategy, sched_seed: u64, hb: bool, alloc_yield_on: bool) -> ExecResult {
     alloc::begin_run(acfg_from(program));
     alloc::set_record_events(false);
     alloc::set_dealloc_observer(Some(rt::atomic::on_dealloc));
+    alloc::set_alloc_observer(Some(rt::atomic::on_alloc));
+    ALLOC_YIELD.store(alloc_yield_on, std::sync::atomic::Ordering::Relaxed);
+    alloc::set_alloc_hook(Some(alloc_yield));
     rt::atomic::begin_execution(hb);
     prog::VIOLATIONS.lock().unwrap().clear();
     prog::PROBES.lock().unwrap().clear();
@@ -229,6 +245,9 @@ fn execute(program: &J, strategy: Strategy, sched_seed: u64, hb: bool) -> ExecRe
         }
     }
     alloc::set_dealloc_observer(None);
+    alloc::set_alloc_observer(None);
+    alloc::set_alloc_hook(None);
+    ALLOC_YIELD.store(false, std::sync::atomic::Ordering::Relaxed);
     let mut probes: BTreeMap<&'static str, u64> = rt::atomic::take_probes();
     for (k, v) in prog::PROBES.lock().unwrap().drain(..) {
         *probes.entry(k).or_insert(0) += v;
@@ -283,7 +302,8 @@ fn main() {
                 let program = prog::gen_program(&mut Rng::new(prog_seed));
                 let strategy = draw_strategy(&mut Rng::new(sched_seed ^ 0x57a7));
                 journal.reset(&J::obj().set("run", i).set("seed", sched_seed).set("profile", "sched").set("cfg", J::obj()).set("prog", program.clone()).set("regen", J::obj().set("seed", seed).set("tag", tag).set("index", i).set("per_prog", per_prog)).dump());
-                let r = execute(&program, strategy.clone(), sched_seed, hb);
+                let ay = sched_seed & 1 == 0;
+                let r = execute(&program, strategy.clone(), sched_seed, hb, ay);
                 steps += r.out.decisions.len() as u64;
                 preempt += r.out.preemptions;
                 atomics += r.atomic_ops;
@@ -312,6 +332,7 @@ fn main() {
                         .set("sched", strategy_json(&Strategy::Decisions(r.out.decisions.clone())))
                         .set("directives", strategy_json(&Strategy::Directives(r.out.directives.clone())))
                         .set("hb", hb)
+                        .set("alloc_yield", ay)
                         .set("ops", J::Arr(vec![]))
                         .set("violations", J::Arr(r.viol.iter().map(|v| v.to_json()).collect()));
                     let _ = writeln!(out.lock(), "{}", rec.dump());
@@ -360,7 +381,8 @@ fn main() {
                 (program, draw_strategy(&mut Rng::new(sched_seed ^ 0x57a7)), sched_seed)
             };
             let hb = rec.get("hb").map(|_| rec.boolean("hb")).unwrap_or(true);
-            let r = execute(&program, strategy, sched_seed, hb);
+            let ay = rec.get("alloc_yield").map(|_| rec.boolean("alloc_yield")).unwrap_or(sched_seed & 1 == 0);
+            let r = execute(&program, strategy, sched_seed, hb, ay);
             let o = J::obj()
                 .set("type", "replay")
                 .set("steps", r.out.decisions.len())
